@@ -33,7 +33,12 @@ type RecvSite struct {
 
 // sendCallee returns the function whose body stands for the call: a closure defined in the caller and called
 // directly, or a same-package helper that is not on the reference list (known_funcs.txt).
-func sendCallee(call *ssa.Call) *ssa.Function {
+func sendCallee(call *ssa.Call) *ssa.Function { return TransparentCallee(call) }
+
+// TransparentCallee returns the function whose body the analyses look through at this call: a closure defined
+// in the caller and called directly, or a same-package helper that is not on the reference list
+// (known_funcs.txt), i.e. one the rules have never seen. nil for every other call.
+func TransparentCallee(call *ssa.Call) *ssa.Function {
 	if mc, ok := call.Call.Value.(*ssa.MakeClosure); ok {
 		if f, ok := mc.Fn.(*ssa.Function); ok {
 			return f
@@ -92,13 +97,45 @@ func Sends(fn *ssa.Function) []SendSite {
 		}
 		for _, inner := range directSends(f) {
 			site := SendSite{Instr: call, Chan: inner.Chan, Select: inner.Select, Index: inner.Index, Via: f, Val: inner.Val}
-			for _, src := range Sources(inner.Val) {
-				for pi, p := range f.Params {
-					if src == ssa.Value(p) && pi < len(call.Call.Args) {
-						site.Val = call.Call.Args[pi]
+			// which argument of THIS call is the value sent (the callee's parameter, looked at without
+			// resolving it to all call sites)
+			seenV := map[ssa.Value]bool{}
+			var find func(v ssa.Value)
+			find = func(v ssa.Value) {
+				if v == nil || seenV[v] {
+					return
+				}
+				seenV[v] = true
+				switch x := v.(type) {
+				case *ssa.Parameter:
+					for pi, p := range f.Params {
+						if x == p && pi < len(call.Call.Args) {
+							site.Val = call.Call.Args[pi]
+						}
+					}
+				case *ssa.Phi:
+					for _, e := range x.Edges {
+						find(e)
+					}
+				case *ssa.MakeInterface:
+					find(x.X)
+				case *ssa.ChangeInterface:
+					find(x.X)
+				case *ssa.ChangeType:
+					find(x.X)
+				case *ssa.Convert:
+					find(x.X)
+				case *ssa.UnOp:
+					if x.Op == token.MUL {
+						if cell := CellOf(x.X); cell != nil {
+							for _, st := range StoresTo(cell) {
+								find(st.Val)
+							}
+						}
 					}
 				}
 			}
+			find(inner.Val)
 			out = append(out, site)
 		}
 	})
